@@ -505,13 +505,15 @@ def coq_eval_many(name, imports, evals, per_file=40, jobs=16, timeout=900):
     for (rc, out), sh in zip(outs, shards):
         if rc != 0:
             ok = False
-            err += out[-3000:]
+            # the error message of coqc is what matters: lines with Error / timeout first, then the tail
+            lines = [l for l in out.splitlines() if "Error" in l or "rror:" in l or "timeout" in l or "Stack overflow" in l or "Out of memory" in l]
+            err = "coqc exit %s: %s\n" % (rc, " | ".join(lines[:6])[:800]) + err + out[-1500:]
             results += [None] * len(sh)
             continue
         blocks = parse_z_lists(out)
         if len(blocks) != len(sh):
             ok = False
-            err += "expected %d result blocks, got %d\n%s" % (len(sh), len(blocks), out[-2000:])
+            err = "expected %d result blocks, got %d\n" % (len(sh), len(blocks)) + err + out[-1500:]
             results += [None] * len(sh)
         else:
             results += blocks
